@@ -121,10 +121,13 @@ def shallow_call_effect(x, facts):
                 pure = False
     else:
         pure = False
+    is_const_member = const_m and k in ('CXXMemberCallExpr', 'CXXOperatorCallExpr')
     for a, pk in zip(args, kinds):
         if pk in ('mref', 'mptr', 'mptr?'):
             e.mod.add(A.root_loc(a))
-            pure = False
+            # a const method writes its results through its out-parameters only: that is not an opaque heap effect
+            if not is_const_member:
+                pure = False
         elif pk == 'unknown':
             a2 = A.strip_casts(a)
             if a2['k'] == 'UnaryOperator' and a2.get('op') == '&':
